@@ -414,6 +414,71 @@ def raising_app(environ, start_response):
     raise RuntimeError("boom from the application")
 
 
+def check_pin_generation_faults(rec, rng):
+    """Fault: making up the PIN fails the first time it is needed (the wrapped application's attributes are looked at;
+    here its __name__ raises once), the request that needed it fails.  The PIN gate is not open afterwards: a console
+    command without a cookie is refused, before and after a later successful generation."""
+    import werkzeug.debug as dbg
+    from werkzeug.debug import DebuggedApplication
+    from werkzeug.test import create_environ, run_wsgi_app
+
+    class Moody:
+        def __init__(self, failures):
+            self.failures = failures
+
+        @property
+        def __name__(self):
+            if self.failures > 0:
+                self.failures -= 1
+                raise RuntimeError("the application object is not ready yet")
+            return "moody_app"
+
+        def __call__(self, environ, start_response):
+            start_response("200 OK", [("Content-Type", "text/plain")])
+            return [b"ok"]
+
+    for failures in (1, 2, 0):
+        for first in ("pinauth", "eval", "pin-attribute", "cookie-name"):
+            app = DebuggedApplication(Moody(failures), evalex=True, pin_security=True)
+            spy = SpyFrame()
+            app.frames[777] = spy
+
+            def call(q, cookie=None):
+                env = create_environ("/", query_string=dict(q, __debugger__="yes", s=app.secret))
+                env["HTTP_HOST"] = "localhost"
+                if cookie:
+                    env["HTTP_COOKIE"] = cookie
+                env["wsgi.errors"] = io.StringIO()
+                try:
+                    it, st, hd = run_wsgi_app(app, env)
+                    return st[:3], b"".join(it)
+                except Exception as e:  # noqa: BLE001 - the fault surfaces to whoever made this request
+                    return "EXC", type(e).__name__.encode()
+
+            for _ in range(failures + 1):
+                if first == "pinauth":
+                    call({"cmd": "pinauth", "pin": "000-000-000"})
+                elif first == "eval":
+                    call({"cmd": "1+1", "frm": "777"})
+                else:
+                    try:
+                        app.pin if first == "pin-attribute" else app.pin_cookie_name  # noqa: B018
+                    except RuntimeError:
+                        pass
+                spy.calls.clear()
+                res = call({"cmd": "40+2", "frm": "777"})
+                rec.case()
+                rec.nontrivial(("pin-generation-fault", failures, first))
+                rec.observe("console_commands_after_a_failed_pin_generation")
+                if spy.calls:
+                    rec.violation("C20/GATE-BYPASS-pin", f"the first PIN generation failed {failures}x (first use through {first}); afterwards a console command without any cookie ran in the frame: {res!r}",
+                                  {"part": "pin-generation-fault", "failures": failures, "first_use": first}, monitor="gate")
+                    return
+            if app.pin is None:
+                rec.violation("C20/pin-security-on-without-a-pin", f"after {failures} failed generation(s) (first use through {first}) the debugger's PIN is None", {"part": "pin-generation-fault", "failures": failures, "first_use": first}, monitor="gate")
+                return
+
+
 def check_pin_configuration_and_real_tracebacks(rec, rng):
     """(2c) Configuration: the PIN comes from WERKZEUG_DEBUG_PIN (absent, 'off', digits with or without dashes, junk) -
     'off' and nothing else switches the PIN gate off, a configured PIN is the one that authenticates.  And the real
@@ -929,6 +994,7 @@ def run(shard, rec, rng):
     if idx % 8 == 3:
         check_debugger_histories_and_schedules(rec, rng)
         check_pin_configuration_and_real_tracebacks(rec, rng)
+        check_pin_generation_faults(rec, rng)
     check_pin_histories(rec, idx, min(of, 27), cfg["hist_len"]) if idx < 27 else None
     reach.finish()
 
